@@ -474,6 +474,7 @@ def joint_pairs():
     or the same call on two cubes that differ only in content."""
     da, zones = base_cube()
     zones_b = zones.copy(data=np.array([[1, 1, 0, 0], [0, 2, 2, 255], [255, 1, 1, 2]], dtype="int16"))
+    zones_c = zones.copy(data=np.array([[0, 0, 1, 1], [2, 0, 1, 1], [2, 2, 0, 1]], dtype="int16"))
     sg = (da.isel(time=0).astype("float64") % 5 - 2).drop_vars("time")
     sg_b = (3 - sg).clip(-2, 2)
     lc = ((da.isel(time=0).astype("float64") % 10) / 10).drop_vars("time")
@@ -505,7 +506,12 @@ def joint_pairs():
         "whits_nodata": (lambda a: a.hdc.whit.whits(nodata=-9999, s=10.0), lambda a: a.hdc.whit.whits(nodata=0, s=10.0)),
         "whitswcv_p": (lambda a: a.hdc.whit.whitswcv(nodata=-9999, srange=sr, p=0.9), lambda a: a.hdc.whit.whitswcv(nodata=-9999, srange=sr, p=0.1)),
         "zonal_mean_dtype": (lambda a: a.hdc.zonal.mean(zones, [0, 1, 2], name="zm"), lambda a: a.hdc.zonal.mean(zones, [0, 1, 2], name="zm", dtype="float64")),
-        "zonal_mean_zone_nodata": (lambda a: a.hdc.zonal.mean(zones, [0, 1, 2], name="zm"), lambda a: a.hdc.zonal.mean(zones.assign_attrs(nodata=1), [0, 1, 2], name="zm")),
+        "croo": (lambda a: ((a > 30) * 1).astype("uint8").hdc.algo.croo(), lambda a: ((a > 50) * 1).astype("uint8").hdc.algo.croo()),
+        "lroo": (lambda a: ((a > 30) * 1).astype("uint8").hdc.algo.lroo(), lambda a: ((a > 50) * 1).astype("uint8").hdc.algo.lroo()),
+        "autocorr": (lambda a: a.hdc.algo.autocorr(), lambda a: a.assign_attrs(nodata=0).hdc.algo.autocorr()),
+        "mktrend": (lambda a: a.hdc.algo.mktrend(), lambda a: a.assign_attrs(nodata=0).hdc.algo.mktrend()),
+        # (the raster holds only the ids 0..2, so that it stays in contract whichever value is declared as its nodata)
+        "zonal_mean_zone_nodata": (lambda a: a.hdc.zonal.mean(zones_c, [0, 1, 2], name="zm"), lambda a: a.hdc.zonal.mean(zones_c.assign_attrs(nodata=2), [0, 1, 2], name="zm")),
         "spi_groups": (lambda a: a.hdc.algo.spi(groups=[0, 1, 0, 1, 0, 1]), lambda a: a.hdc.algo.spi(groups=[0, 0, 0, 1, 1, 1])),
         "spi_window": (lambda a: a.hdc.algo.spi(calibration_end="2000-01-31"), lambda a: a.hdc.algo.spi(calibration_begin="2000-01-11")),
         "mean_grp": (lambda a: a.hdc.algo.mean_grp(ga), lambda a: a.hdc.algo.mean_grp(gb)),
@@ -527,8 +533,13 @@ def _joint_task(task, p):
     n_eval = 0
     with warnings.catch_warnings():
         warnings.simplefilter("ignore")
-        for label, (ca, cb), (xa, xb) in (("two auxiliary inputs, one cube", (fa, fb), (da, da)), ("one call, two cubes", (fa, fa), (da, da2))):
-            ea, eb = materialise(ca(xa)), materialise(cb(xb))
+        da3 = da.assign_coords(time=da.time.values[::-1].copy())       # the same stored data under another time labelling
+        for label, (ca, cb), (xa, xb) in (("two auxiliary inputs, one cube", (fa, fb), (da, da)), ("one call, two cubes", (fa, fa), (da, da2)),
+                                          ("one call, the same stored data under two time labellings", (fa, fa), (da, da3))):
+            try:
+                ea, eb = materialise(ca(xa)), materialise(cb(xb))
+            except Exception:
+                continue        # the operation refuses this input in memory as well (e.g. an unsorted time axis)
             for ch in ({"time": -1, "y": (2, 1), "x": (2, 2)}, {"time": -1, "y": (3,), "x": (4,)}, {"time": -1, "y": (1, 1, 1), "x": (1, 3)}):
                 for sched in ("synchronous", "threads"):
                     la, lb = ca(xa.chunk(ch)), cb(xb.chunk(ch))
@@ -686,10 +697,30 @@ def _repeat_task(task, p):
     with warnings.catch_warnings():
         warnings.simplefilter("ignore")
         fresh = materialise(f(da.copy(deep=True)))
-        for backend in ("numpy", "dask", "float64 numpy"):
+        for backend in ("numpy", "dask", "float64 numpy", "dask, then loaded in place"):
             obj = da.copy(deep=True)
-            if backend == "dask":
+            if backend.startswith("dask"):
                 obj = obj.chunk({"time": -1, "y": (2, 1), "x": (2, 2)})
+            if backend == "dask, then loaded in place":
+                # the accessor object is created while the data are lazy; DataArray.load() then makes the SAME object
+                # an in-memory one - whatever the accessor noted about laziness must not survive that
+                try:
+                    r0 = materialise(f(obj))
+                except Exception:
+                    r0 = None
+                obj.hdc  # noqa: B018 - make sure the accessor exists before loading
+                obj.load()
+                try:
+                    r1 = materialise(f(obj))
+                    msg = same(fresh, r1)
+                except Exception as e:  # noqa: BLE001
+                    msg = f"raised {type(e).__name__}: {e}"
+                n += 1
+                if msg and r0 is not None:
+                    p.violation(sub, {"op": name, "backend": backend}, {"kind": "repeat", "op": name},
+                                f"{name}: after DataArray.load() turned the dask-backed object into an in-memory one, the call on that same object "
+                                f"does not give the in-memory result: {msg}")
+                continue
             if backend == "float64 numpy":
                 if name in ("whitint", "lroo", "croo"):
                     continue
@@ -721,6 +752,27 @@ def _repeat_task(task, p):
                     materialise(O[others[(step * 7) % len(others)]](obj))
                 except Exception:
                     pass
+            else:
+                # the data edited in place (one cell becomes missing: the nodata marker, NaN for float64): the next call
+                # must see the object as it is now - nothing learnt about the data in an earlier call may be kept
+                if backend in ("numpy", "float64 numpy") and name not in ("lroo", "croo"):
+                    mark = np.nan if backend == "float64 numpy" and name.startswith("zonal") else -9999
+                    for cell in ((1, 2, 3), (0, 0, 0)):
+                        obj.values[cell] = mark
+                        ref_obj = da.copy(deep=True).astype(obj.dtype).assign_attrs(da.attrs)
+                        ref_obj.values[...] = obj.values
+                        try:
+                            exp = materialise(f(ref_obj))
+                            got = materialise(f(obj))
+                        except Exception:
+                            continue
+                        n += 1
+                        msg = same(exp, got)
+                        if msg:
+                            p.violation(sub, {"op": name, "backend": backend, "what": "after an in-place edit", "cell": list(cell)}, {"kind": "repeat", "op": name},
+                                        f"{name} [{backend}]: after cell {cell} of the object was set to {mark} in place, the call on that object differs from "
+                                        f"the call on a fresh object with the same data: {msg}")
+                            break
     p.count(sub, evaluations=n, states=n, transitions=n, traces_validated_against_impl=n, nontrivial=n)
     p.sample(sub, {"op": name, "calls": 3, "backends": ["numpy", "dask", "float64 numpy"]})
 
